@@ -270,6 +270,19 @@ def pin_opaque_widths():
         v = orig(k)
         return v | (1 << (k - 1)) if k == 16 else v
     secrets.randbits = randbits
+    # the same for wall-clock stamps: pydantic prints a datetime whose microsecond is 0 without the fraction (7 characters shorter), and
+    # frames / NTP replies carry `datetime.now()`: one frame in a million is 7 bytes smaller. Keep the clock, pin the width.
+    import datetime as _dtmod
+    import sys
+
+    class _DT(_dtmod.datetime):
+        @classmethod
+        def now(cls, tz=None):
+            d = _dtmod.datetime.now(tz)
+            return d if d.microsecond else d.replace(microsecond=1)
+    for name, mod in list(sys.modules.items()):
+        if name.startswith("primaite") and mod is not None and getattr(mod, "datetime", None) is _dtmod.datetime:
+            setattr(mod, "datetime", _DT)
     _PINNED = True
 
 
